@@ -182,7 +182,8 @@ pub fn run(a: &ShardArgs) -> serde_json::Value {
         }
     }
     // end to end: the merged builder / CLI values as the runner really applies them
-    let e2e = crate::families::fam_resolve(crate::families::Tier::Quick);
+    let e2e_tier = if a.thorough { crate::families::Tier::Thorough } else { crate::families::Tier::Quick };
+    let e2e = crate::families::fam_resolve(e2e_tier);
     let mut stats = crate::exec::ExploreStats::default();
     for (i, cfg) in e2e.iter().enumerate() {
         if !a.mine(i) {
@@ -215,7 +216,7 @@ pub fn run(a: &ShardArgs) -> serde_json::Value {
         "property": "C18", "tier": a.tier,
         "total_configs": cs.len() + e2e.len(), "configs_done": evaluations, "configs_skipped_budget": 0,
         "evaluations": evaluations, "distinct_nontrivial": nontrivial,
-        "rule": "complete product: retry tag in {none,@retry,@retry(3),@retry.after(2s),@retry(3).after(2s),@retry(10),@retry(0).after(0s),@retryable (an ordinary tag)} on scenario x rule x feature (with and without a rule) x --retry {none,5,0} x --retry-after {none,7s} x --retry-tag-filter {none,@x,not @x,@x and @y} x placement of x (none/scenario/rule/feature) and y; plus, end to end under the gate executor, 1500 configurations with differing builder / CLI retries, delays, filters, limits and fail-fast flags (family `resolve`): budget on the first event, delay, limit and fail-fast behaviour must be what the precedence resolves to; non-trivial = at least two sources compete",
+        "rule": "complete product: retry tag in {none,@retry,@retry(3),@retry.after(2s),@retry(3).after(2s),@retry(10),@retry(0).after(0s),@retryable (an ordinary tag)} on scenario x rule x feature (with and without a rule) x --retry {none,5,0} x --retry-after {none,7s} x --retry-tag-filter {none,@x,not @x,@x and @y} x placement of x (none/scenario/rule/feature) and y; plus, end to end under the gate executor, 1500 (thorough: 30 000, with the tags inherited from the feature of a scenario in a rule, all filter x hook combinations) configurations with differing builder / CLI retries, delays, filters, limits and fail-fast flags (family `resolve`): budget on the first event, delay, limit and fail-fast behaviour must be what the precedence resolves to; non-trivial = at least two sources compete",
         "exhaustive": true,
         "violations": violations, "samples": samples,
     })
@@ -223,7 +224,11 @@ pub fn run(a: &ShardArgs) -> serde_json::Value {
 
 pub fn replay(j: &serde_json::Value) -> i32 {
     if let Some(i) = j["e2e_index"].as_u64() {
-        let e2e = crate::families::fam_resolve(crate::families::Tier::Quick);
+        let e2e = crate::families::fam_resolve(if j["tier"].as_str() == Some("thorough") {
+            crate::families::Tier::Thorough
+        } else {
+            crate::families::Tier::Quick
+        });
         let cfg = &e2e[i as usize];
         let sched: Vec<usize> =
             j["schedule"].as_array().unwrap().iter().map(|x| x.as_u64().unwrap() as usize).collect();
